@@ -58,3 +58,186 @@ Section FloatOracle.
       now apply to_bam_wf.
   Qed.
 End FloatOracle.
+
+(* ---- the same composition for EVERY record of the data model: any optional fields, any number
+   of CIGAR operations (C05's full codec theorem Bam.AuxProofs.decode_encode).
+
+   [to_bam_d] carries the optional fields over: A/c/C/s/S/i/I/f become VNum with the BAM type
+   code, Z/H VStr, B arrays VArr.  The two paths differ in exactly the ways the property allows:
+   the SAM text does not carry the storage width of integer tags (the reader picks the smallest
+   type, [by_value] does the same on the BAM side), BAM stores bases in the 16-letter alphabet
+   and drops a user CG field ([Bam.CodecProofs.norm], applied to the SAM side). *)
+From NV Require Bam.AuxProofs.
+
+Definition to_bam_val (a : aux) : Bam.Record.value :=
+  match a with
+  | AChar c => Bam.Record.VNum Bam.Record.tyA (Z.of_N c)
+  | AInt t v => Bam.Record.VNum (sub_char t) v
+  | AFloat b => Bam.Record.VNum Bam.Record.tyf (Z.of_N b)
+  | AStr s => Bam.Record.VStr Bam.Record.tyZ s
+  | AHex s => Bam.Record.VStr Bam.Record.tyH s
+  | AArrI t vs => Bam.Record.VArr (sub_char t) vs
+  | AArrF bs => Bam.Record.VArr Bam.Record.tyf (map Z.of_N bs)
+  end.
+
+Definition to_bam_field (f : (N * N) * aux) : Bam.Record.tag * Bam.Record.value := (fst f, to_bam_val (snd f)).
+
+Definition to_bam_d (r : sam_rec) : Bam.Record.record :=
+  Bam.Record.mkRecord (r_name r) (r_flags r) (r_rid r) (opt_pos (r_pos r)) (opt_mapq (r_mapq r))
+    (r_cigar r) (r_mrid r) (opt_pos (r_mpos r)) (r_tlen r) (r_seq r) (r_qual r)
+    (map to_bam_field (r_data r)).
+
+Definition is_int_code (ty : N) : bool := existsb (N.eqb ty) [99; 67; 115; 83; 105; 73].
+
+(* integer tags by value, on a BAM-side value *)
+Definition val_by_value (v : Bam.Record.value) : Bam.Record.value :=
+  match v with
+  | Bam.Record.VNum ty z =>
+      if is_int_code ty then
+        match smallest z with Some t' => Bam.Record.VNum (sub_char t') z | None => v end
+      else v
+  | _ => v
+  end.
+
+Definition by_value (r : Bam.Record.record) : Bam.Record.record :=
+  Bam.Record.mkRecord (Bam.Record.r_name r) (Bam.Record.r_flags r) (Bam.Record.r_rid r) (Bam.Record.r_pos r)
+    (Bam.Record.r_mapq r) (Bam.Record.r_cigar r) (Bam.Record.r_mrid r) (Bam.Record.r_mpos r)
+    (Bam.Record.r_tlen r) (Bam.Record.r_seq r) (Bam.Record.r_qual r)
+    (map (fun p => (fst p, val_by_value (snd p))) (Bam.Record.r_data r)).
+
+(* what the Rust types add to wf_rec on the BAM side: a character is a u8, a float 32 bits *)
+Definition wf_bits_aux (a : aux) : Prop :=
+  match a with
+  | AChar c => c < 256
+  | AFloat b => b < 4294967296
+  | AArrF bs => Forall (fun b => b < 4294967296) bs
+  | _ => True
+  end.
+Definition wf_bits (r : sam_rec) : Prop := Forall (fun f => wf_bits_aux (snd f)) (r_data r).
+
+Lemma in_range_1s z : (-128 <= z < 128)%Z -> Bam.AuxProofs.in_range 1 true z.
+Proof. intro H. unfold Bam.AuxProofs.in_range. rewrite Bam.CodecProofs.pow256_1. change (256 / 2) with 128. lia. Qed.
+Lemma in_range_1u z : (0 <= z < 256)%Z -> Bam.AuxProofs.in_range 1 false z.
+Proof. intro H. unfold Bam.AuxProofs.in_range. rewrite Bam.CodecProofs.pow256_1. lia. Qed.
+Lemma in_range_2s z : (-32768 <= z < 32768)%Z -> Bam.AuxProofs.in_range 2 true z.
+Proof. intro H. unfold Bam.AuxProofs.in_range. rewrite Bam.CodecProofs.pow256_2. change (65536 / 2) with 32768. lia. Qed.
+Lemma in_range_2u z : (0 <= z < 65536)%Z -> Bam.AuxProofs.in_range 2 false z.
+Proof. intro H. unfold Bam.AuxProofs.in_range. rewrite Bam.CodecProofs.pow256_2. lia. Qed.
+Lemma in_range_4s z : (-2147483648 <= z < 2147483648)%Z -> Bam.AuxProofs.in_range 4 true z.
+Proof.
+  intro H. unfold Bam.AuxProofs.in_range. rewrite Bam.CodecProofs.pow256_4.
+  replace (4294967296 / 2) with 2147483648 by (vm_compute; reflexivity). lia.
+Qed.
+Lemma in_range_4u z : (0 <= z < 4294967296)%Z -> Bam.AuxProofs.in_range 4 false z.
+Proof. intro H. unfold Bam.AuxProofs.in_range. rewrite Bam.CodecProofs.pow256_4. lia. Qed.
+
+Definition ity_width (t : ity) : nat * bool :=
+  match t with I8 => (1%nat, true) | U8 => (1%nat, false) | I16 => (2%nat, true) | U16 => (2%nat, false)
+             | I32 => (4%nat, true) | U32 => (4%nat, false) end.
+
+Lemma num_width_sub t : Bam.Record.num_width (sub_char t) = Some (ity_width t).
+Proof. destruct t; reflexivity. Qed.
+Lemma sub_width_sub t : Bam.Record.sub_width (sub_char t) = Some (ity_width t).
+Proof. destruct t; reflexivity. Qed.
+
+Lemma ity_in_range t v : (ity_lo t <= v <= ity_hi t)%Z ->
+  Bam.AuxProofs.in_range (fst (ity_width t)) (snd (ity_width t)) v.
+Proof.
+  destruct t; cbn [ity_lo ity_hi ity_width fst snd]; intro H.
+  - apply in_range_1s. lia.
+  - apply in_range_1u. lia.
+  - apply in_range_2s. lia.
+  - apply in_range_2u. lia.
+  - apply in_range_4s. lia.
+  - apply in_range_4u. lia.
+Qed.
+
+Lemma to_bam_val_wf a : wf_aux a -> wf_bits_aux a -> Bam.AuxProofs.wf_value (to_bam_val a).
+Proof.
+  destruct a as [c|t v|b|s|s|t vs|bs]; cbn [to_bam_val wf_aux wf_bits_aux Bam.AuxProofs.wf_value]; intros W B.
+  - change (Bam.Record.num_width Bam.Record.tyA) with (Some (1%nat, false)). apply in_range_1u. lia.
+  - rewrite num_width_sub. destruct (ity_width t) as [w sg] eqn:E.
+    pose proof (ity_in_range t v W) as H. rewrite E in H. exact H.
+  - change (Bam.Record.num_width Bam.Record.tyf) with (Some (4%nat, false)). apply in_range_4u. lia.
+  - now left.
+  - now right.
+  - rewrite sub_width_sub. destruct (ity_width t) as [w sg] eqn:E.
+    eapply Forall_impl; [|exact W]. cbv beta. intros z Hz.
+    pose proof (ity_in_range t z Hz) as H. rewrite E in H. exact H.
+  - change (Bam.Record.sub_width Bam.Record.tyf) with (Some (4%nat, false)).
+    apply Forall_forall. intros z Hz.
+    apply in_map_iff in Hz as (b & <- & Hb). rewrite Forall_forall in B. specialize (B b Hb).
+    apply in_range_4u. lia.
+Qed.
+
+Lemma to_bam_d_wf r : wf_rec r -> Bam.CodecProofs.wf (to_bam_d r).
+Proof. intro W. exact (to_bam_wf r W). Qed.
+
+Lemma to_bam_val_norm a : wf_aux a -> to_bam_val (norm_aux a) = val_by_value (to_bam_val a).
+Proof.
+  destruct a as [c|t v|b|s|s|t vs|bs]; cbn [to_bam_val norm_aux val_by_value wf_aux]; intro W; try reflexivity.
+  assert (IC : is_int_code (sub_char t) = true) by (destruct t; reflexivity). rewrite IC.
+  destruct (smallest v) as [t'|]; reflexivity.
+Qed.
+
+Lemma data_by_value d : Forall (fun f => wf_aux (snd f)) d ->
+  filter (fun p => negb (Bam.Record.tag_eqb (fst p) Bam.Record.CG))
+         (map to_bam_field (map (fun f => (fst f, norm_aux (snd f))) d))
+  = map (fun p => (fst p, val_by_value (snd p)))
+        (filter (fun p => negb (Bam.Record.tag_eqb (fst p) Bam.Record.CG)) (map to_bam_field d)).
+Proof.
+  induction 1 as [|[tg a] d Wa _ IH]; [reflexivity|].
+  cbn [map filter to_bam_field fst snd].
+  destruct (negb (Bam.Record.tag_eqb tg Bam.Record.CG)); cbn [map fst snd]; rewrite IH; [|reflexivity].
+  f_equal. unfold to_bam_field. cbn [fst snd]. f_equal. apply to_bam_val_norm. exact Wa.
+Qed.
+
+Lemma norm_by_value r : Forall (fun f => wf_aux (snd f)) (r_data r) ->
+  Bam.CodecProofs.norm (to_bam_d (norm_i r)) = by_value (Bam.CodecProofs.norm (to_bam_d r)).
+Proof.
+  intro W. unfold Bam.CodecProofs.norm, by_value.
+  unfold to_bam_d at 1 2 3 4 5 6 7 8 9 10 11. cbn [Bam.Record.r_name Bam.Record.r_flags Bam.Record.r_rid
+    Bam.Record.r_pos Bam.Record.r_mapq Bam.Record.r_cigar Bam.Record.r_mrid Bam.Record.r_mpos
+    Bam.Record.r_tlen Bam.Record.r_seq Bam.Record.r_qual Bam.Record.r_data].
+  unfold norm_i at 1 2 3 4 5 6 7 8 9 10 11 12. cbn [r_name r_flags r_rid r_pos r_mapq r_cigar r_mrid r_mpos r_tlen r_seq r_qual r_data].
+  unfold to_bam_d. cbn [Bam.Record.r_name Bam.Record.r_flags Bam.Record.r_rid
+    Bam.Record.r_pos Bam.Record.r_mapq Bam.Record.r_cigar Bam.Record.r_mrid Bam.Record.r_mpos
+    Bam.Record.r_tlen Bam.Record.r_seq Bam.Record.r_qual Bam.Record.r_data].
+  f_equal. apply data_by_value. exact W.
+Qed.
+
+Section FloatOracleFull.
+  Variable fmt32 : N -> bytes.
+  Variable fmtd32 : N -> bytes.
+  Variable parse32 : bytes -> option N.
+  Variable parse32p : bytes -> option (N * bytes).
+  Hypothesis H_f : forall b, finite32 b = true -> parse32 (fmt32 b) = Some b.
+  Hypothesis H_fc : forall b, PR (fmt32 b).
+  Hypothesis H_d : forall b rest, finite32 b = true -> (rest = [] \/ exists r, rest = 44 :: r) ->
+                                  parse32p (fmtd32 b ++ rest) = Some (b, rest).
+  Hypothesis H_dc : forall b, PR (fmtd32 b).
+
+  Theorem sam_bam_agree_data refs nref r t block :
+    wf_refs refs -> wf_rec r -> wf_bits r -> r_qual r <> [9] ->
+    write_record fmt32 fmtd32 refs r = Some t ->
+    Bam.Encode.encode nref (to_bam_d r) = Bam.Record.Ok block ->
+    exists rs rb, parse_line parse32 parse32p refs t = POk rs
+                  /\ Bam.Decode.decode block = Bam.Record.Ok rb
+                  /\ Bam.CodecProofs.norm (to_bam_d rs) = by_value rb.
+  Proof.
+    intros WR W WB NQ HW HE. exists (norm_i r), (Bam.CodecProofs.norm (to_bam_d r)).
+    destruct W as (Wf & Wq & Wc & Wt & Wd & Wn).
+    split; [|split].
+    - rewrite (record_roundtrip fmt32 fmtd32 parse32 parse32p H_f H_fc H_d H_dc refs r t WR
+                 (conj Wf (conj Wq (conj Wc (conj Wt (conj Wd Wn))))) HW).
+      f_equal. apply norm_rec_id. now apply norm_qual_not9.
+    - apply (Bam.AuxProofs.decode_encode nref (to_bam_d r) block); auto.
+      + apply to_bam_d_wf. exact (conj Wf (conj Wq (conj Wc (conj Wt (conj Wd Wn))))).
+      + unfold to_bam_d. cbn [Bam.Record.r_data]. unfold Bam.AuxProofs.wf_data.
+        apply Forall_forall. intros p Hp. apply in_map_iff in Hp as (f & <- & Hf).
+        cbn [to_bam_field snd]. rewrite Forall_forall in Wd. unfold wf_bits in WB. rewrite Forall_forall in WB.
+        apply to_bam_val_wf; [exact (Wd f Hf)|exact (WB f Hf)].
+      + unfold to_bam_d. cbn [Bam.Record.r_data]. rewrite map_map. cbn [to_bam_field fst]. exact Wn.
+    - apply norm_by_value. exact Wd.
+  Qed.
+End FloatOracleFull.
